@@ -47,24 +47,24 @@ def run(eng, tier):
         ws = p.writes
         cs = [w for w in ws if w['ns'] == 'contract_info']; vs = [w for w in ws if w['ns'] == 'version_info']
         eng.ob(len(cs) == 1 and len(vs) == 1 and cs[0]['op'] == 'save' and vs[0]['op'] == 'save', PROP, 'writes', 'config+stamp',
-               'a successful migration must save the configuration once and stamp the version once; found %s' % [(w['op'], w['ns']) for w in ws], detail=p.describe(12))
+               'a successful migration must save the configuration once and stamp the version once; found %s' % [(w['op'], w['ns']) for w in ws], where=p, detail=p.describe(12))
         eng.ob(not any(w['ns'] == 'ask' for w in ws), PROP, 'asks-untouched', 'migrate', 'migration writes the "ask" namespace', where=next((w['site'] for w in ws if w['ns'] == 'ask'), None))
         eng.ob(all(w['ns'] in ('contract_info', 'version_info', 'bid') for w in ws), PROP, 'writes', 'namespaces', 'migration writes %s' % sorted(set(str(w['ns']) for w in ws)))
         if len(cs) != 1 or len(vs) != 1: continue
         first = min(w['fpos'] for w in ws)
         # gates
         pf = p.pos(('is', ('semver_parse', F(VER, 'version')), 'Ok'))
-        eng.ob(pf is not None and pf < first, PROP, 'gate', 'version-parses', 'migration writes before establishing that the stored version parses', detail=p.describe(16))
+        eng.ob(pf is not None and pf < first, PROP, 'gate', 'version-parses', 'migration writes before establishing that the stored version parses', where=p, detail=p.describe(16))
         gates = gate_facts(p)
         lows = []
         for pos, rs, outcome, ver in gates:
             if ver != PARSED:
-                eng.fail(PROP, 'gate', 'version-operand', 'a version requirement is matched against %s, not the parsed stored version' % K(ver)[:120], detail=p.describe(16)); continue
+                eng.fail(PROP, 'gate', 'version-operand', 'a version requirement is matched against %s, not the parsed stored version' % K(ver)[:120], where=p, detail=p.describe(16)); continue
             if rs is None: eng.fail(PROP, 'gate', 'requirement-constant', 'a version requirement is not a string constant'); continue
             reqs_seen.add(rs)
             if outcome is True and semverlite.lower_bound(rs) is not None and '<' not in rs: lows.append((pos, rs))
         eng.ob(any(pos < first and semverlite.lower_bound(rs) == MINIMUM for pos, rs in lows), PROP, 'gate', 'minimum-before-write',
-               'migration writes before the minimum-version gate (>= %d.%d.%d on the stored version) holds' % MINIMUM, detail=p.describe(16), sample={'rule': 'gate', 'gates': [rs for _, rs in lows]})
+               'migration writes before the minimum-version gate (>= %d.%d.%d on the stored version) holds' % MINIMUM, where=p, detail=p.describe(16), sample={'rule': 'gate', 'gates': [rs for _, rs in lows]})
         eng.ob(bool(lows) and max(semverlite.lower_bound(rs) for _, rs in lows) == MINIMUM, PROP, 'gate', 'effective-minimum',
                'the effective minimum of the version gates on this path is %s, expected %s' % (max([semverlite.lower_bound(rs) for _, rs in lows]) if lows else None, MINIMUM))
         # order: configuration first, stamp last
